@@ -77,7 +77,7 @@ def masked(step, stream_pos):
         f = {'c': 'TERM', 'ttid': f['ttid']}
     elif f['c'] == 'USESTR':
         f = {'c': 'USESTR'}
-    return {'emit': True, 'win': [stream_pos[k] for k in step['win']], 'f': f, 'eff': step['eff']}
+    return {'emit': True, 'win': [stream_pos.get(k, -1) for k in step['win']], 'f': f, 'eff': step['eff']}
 
 
 def replay_schedule(ctx, b, known=None):
@@ -209,7 +209,8 @@ def run(ctx):
                     ctx.violation('C05/solo-vs-interleaved@%s' % cls,
                                   'thread %d differs at its event %d: interleaved %s, solo %s' % (t, d + 1, a, b),
                                   {'kind': 'code->spec', 'stream': describe(w, stream), 'thread': t})
-    validate_streams(ctx, cases, 'full', 'c05val')
+    # the interleavings of one program set (same world) also run on separate parser objects fed alternately
+    validate_streams(ctx, cases, 'full', 'c05val', alternate_rnd=rnd)
     ctx.extra['code'] = {'program_sets': nsets, 'interleavings_each': nil, 'solo_comparisons': solo_cmp}
     ctx.assumptions += ['thread-terminate pid/name and dyld string lookups read tables written by other threads by '
                         'design: masked', 'per-thread assignments compared as the ordered list of table writes made '
